@@ -377,7 +377,7 @@ fn check(id: &str, tier: &str) -> i32
         {
             rep.assume("commands are deterministic functions of their declared sources (mini-shell cat); distinct writes carry distinct mtimes (strict clock)");
             let mut plans = vec![];
-            for (sc, q, t) in vec![(scen::s1_chain(), 4, 6), (scen::s3_multi(), 4, 6), (scen::s2_diamond(), 3, 5), (scen::s4_twins(), 3, 5), (scen::s5_variants(), 4, 6), (scen::s8_failures(), 3, 5)]
+            for (sc, q, t) in vec![(scen::s1_chain(), 6, 9), (scen::s3_multi(), 6, 9), (scen::s2_diamond(), 5, 8), (scen::s4_twins(), 5, 8), (scen::s5_variants(), 6, 9), (scen::s8_failures(), 5, 8)]
             {
                 let mut p = plan(sc, tiered(tier, q, t));
                 p.secs = secs;
@@ -389,7 +389,7 @@ fn check(id: &str, tier: &str) -> i32
         {
             rep.assume("as C01; the must-not-run obligation is asserted only when the harness's own record shows an earlier successful execution on identical sources, the needed contents were in the cache before the build, and no cache content is needed by two targets at once");
             let mut plans = vec![];
-            for (sc, q, t) in vec![(scen::s1_chain(), 4, 6), (scen::s3_multi(), 4, 5), (scen::s2_diamond(), 3, 5), (scen::s4_twins(), 4, 5), (scen::s5_variants(), 4, 6)]
+            for (sc, q, t) in vec![(scen::s1_chain(), 6, 9), (scen::s3_multi(), 6, 8), (scen::s2_diamond(), 5, 8), (scen::s4_twins(), 6, 8), (scen::s5_variants(), 6, 9)]
             {
                 let mut p = plan(sc, tiered(tier, q, t));
                 p.secs = secs;
@@ -401,7 +401,7 @@ fn check(id: &str, tier: &str) -> i32
         {
             rep.assume("strict clock (distinct writes carry distinct mtimes); commands write atomically and deterministically; a failing command writes nothing");
             let mut plans = vec![];
-            for (sc, q, t) in vec![(scen::s1_chain(), 4, 6), (scen::s3_multi(), 4, 5), (scen::s4_twins(), 4, 6), (scen::s5_variants(), 4, 6), (scen::s6_exec(), 4, 6), (scen::s8_failures(), 4, 6)]
+            for (sc, q, t) in vec![(scen::s1_chain(), 6, 9), (scen::s3_multi(), 6, 8), (scen::s4_twins(), 6, 9), (scen::s5_variants(), 6, 9), (scen::s6_exec(), 6, 9), (scen::s8_failures(), 6, 9)]
             {
                 let mut p = plan(sc, tiered(tier, q, t));
                 p.secs = secs;
@@ -413,7 +413,7 @@ fn check(id: &str, tier: &str) -> i32
         {
             rep.assume("scope (goal's rule and its ancestors) is computed from the scenario structure, not from ruler's sorter; commands are exempt");
             let mut plans = vec![];
-            for (sc, q, t) in vec![(scen::s9_scope(), 3, 5), (scen::s3_multi(), 3, 5), (scen::s8_failures(), 3, 5)]
+            for (sc, q, t) in vec![(scen::s9_scope(), 5, 8), (scen::s3_multi(), 5, 8), (scen::s8_failures(), 5, 8)]
             {
                 let mut p = plan(sc, tiered(tier, q, t));
                 p.secs = secs;
@@ -425,7 +425,7 @@ fn check(id: &str, tier: &str) -> i32
         {
             rep.assume("'up to date before the clean' = targets equal the reference values and ruler's own immediate rebuild runs nothing; probes: clean(g) then build(g') for every goal pair at every reached state");
             let mut plans = vec![];
-            for (sc, q, t) in vec![(scen::s6_exec(), 3, 5), (scen::s3_multi(), 3, 4), (scen::s4_twins(), 3, 5), (scen::s1_chain(), 3, 5)]
+            for (sc, q, t) in vec![(scen::s6_exec(), 5, 8), (scen::s3_multi(), 5, 7), (scen::s4_twins(), 5, 8), (scen::s1_chain(), 5, 8)]
             {
                 let mut p = plan(sc, tiered(tier, q, t));
                 p.secs = secs;
@@ -440,7 +440,7 @@ fn check(id: &str, tier: &str) -> i32
             let mut plans = vec![];
             for m in 0..4
             {
-                let mut p = plan(scen::s7_undeclared(m), tiered(tier, 5, 7));
+                let mut p = plan(scen::s7_undeclared(m), tiered(tier, 6, 8));
                 p.secs = secs;
                 plans.push(p);
             }
@@ -452,7 +452,8 @@ fn check(id: &str, tier: &str) -> i32
             let mut plans = vec![];
             for clock in [ClockModel::Strict, ClockModel::Coarse]
             {
-                for (sc, q, t) in vec![(scen::s3_c18(), 8, 10), (scen::s4_c18(), 6, 8)]
+                for (sc, q, t) in vec![(scen::s3_c18(), 10, 14), (scen::s4_c18(), 8, 12), (scen::s1_chain(), 6, 8), (scen::s3_multi(), 5, 8),
+                    (scen::s4_twins(), 6, 8), (scen::s5_variants(), 5, 8), (scen::s2_diamond(), 5, 7), (scen::s6_exec(), 6, 9)]
                 {
                     let mut p = plan(sc, tiered(tier, q, t));
                     p.clock = clock;
@@ -467,7 +468,7 @@ fn check(id: &str, tier: &str) -> i32
         {
             rep.assume("Built = the rule's command is in this build's command log; Recovered = a rename from .ruler/cache onto the target; Up-to-date = no mutation touched the target");
             let mut plans = vec![];
-            for (sc, q, t) in vec![(scen::s1_chain(), 4, 6), (scen::s3_multi(), 4, 5), (scen::s4_twins(), 4, 5), (scen::s6_exec(), 4, 5), (scen::s8_failures(), 4, 5)]
+            for (sc, q, t) in vec![(scen::s1_chain(), 6, 9), (scen::s3_multi(), 6, 8), (scen::s4_twins(), 6, 8), (scen::s6_exec(), 6, 8), (scen::s8_failures(), 6, 8)]
             {
                 let mut p = plan(sc, tiered(tier, q, t));
                 p.secs = secs;
@@ -489,7 +490,7 @@ fn check(id: &str, tier: &str) -> i32
             run_sched_plans(&mut rep, id, cases, phases(tier), Oracles::only("C04"));
             // follow-up histories (repair the cause, build again; break it again)
             let mut plans = vec![];
-            for (sc, q, t) in vec![(scen::s8_failures(), 4, 6), (scen::s1_chain(), 3, 5)]
+            for (sc, q, t) in vec![(scen::s8_failures(), 6, 9), (scen::s1_chain(), 5, 8)]
             {
                 let mut p = plan(sc, tiered(tier, q, t));
                 p.secs = secs;
